@@ -129,7 +129,7 @@ def alt_modfile():
     return ["-modfile=" + _alt_modfile]
 
 
-def go_build(pkg, out, overlay=None, tags=None, race=False, test=False, cwd=HARNESS, extra=None):
+def go_build(pkg, out, overlay=None, tags=None, race=False, test=False, cwd=HARNESS, extra=None, goarch=None):
     sync_gosum()
     cmd = (["go", "test", "-c", "-vet=off"] if test else ["go", "build"]) + alt_modfile()
     if overlay:
@@ -141,7 +141,7 @@ def go_build(pkg, out, overlay=None, tags=None, race=False, test=False, cwd=HARN
     if extra:
         cmd += extra
     cmd += ["-o", out, pkg]
-    run(cmd, cwd=cwd, env=go_env(), timeout=900)
+    run(cmd, cwd=cwd, env=dict(go_env(), GOARCH=goarch, CGO_ENABLED="0") if goarch else go_env(), timeout=900)
     return out
 
 
